@@ -208,6 +208,41 @@ def _module_names():
     return out
 
 
+def _property_names():
+    mods = _MODS[0] or {}
+    key = id(mods)
+    if _REBOUND.get('pkey') != key:
+        out = set()
+        for m in mods.values():
+            for n in ast.walk(m.tree):
+                if isinstance(n, ast.FunctionDef) and n.decorator_list:
+                    out.add(n.name)         # property / cached / any descriptor-making decorator
+        _REBOUND['pkey'] = key
+        _REBOUND['props'] = out
+    return _REBOUND['props']
+
+
+def _rebound_attrs():
+    """Attribute names stored (on any object) by some function of the package other than an __init__."""
+    mods = _MODS[0] or {}
+    key = id(mods)
+    if _REBOUND.get('key') != key:
+        out = set()
+        for m in mods.values():
+            for (fn, cls) in _functions(m.tree):
+                if fn.name == '__init__':
+                    continue
+                for x in ast.walk(fn):
+                    if isinstance(x, ast.Attribute) and isinstance(x.ctx, (ast.Store, ast.Del)):
+                        out.add(x.attr)
+        _REBOUND['key'] = key
+        _REBOUND['set'] = out
+    return _REBOUND['set']
+
+
+_REBOUND = {}
+
+
 def dealias(func, cls, qual):
     """frames = self._frames (a local alias the pinned function does not have, bound once, of an attribute chain that is not
     re-bound while the alias is in use)  ->  the chain itself at every use."""
@@ -246,6 +281,8 @@ def dealias(func, cls, qual):
             continue
         if set(chain) & own_stores:
             continue
+        if set(chain) & _property_names():
+            continue                    # a property computes its value at each read (session_time reads the clock)
         loads = [x for x in ast.walk(func) if isinstance(x, ast.Name) and x.id == a and isinstance(x.ctx, ast.Load)]
         if not loads or any(x.lineno < n.lineno for x in loads if hasattr(x, 'lineno')):
             continue
@@ -260,6 +297,16 @@ def dealias(func, cls, qual):
                      and any(x in loads for x in ast.walk(lp)) for lp in ast.walk(func))
         if inloop:
             continue
+        # a generator is suspended at its yields: whoever runs meanwhile may re-bind the attribute, the alias keeps the old
+        # object - no yield may lie between the alias and a use (nor share a loop with a use)
+        # (unless nothing in the package re-binds those attributes after construction)
+        ys = [y for y in _walk_own(func.body) if isinstance(y, (ast.Yield, ast.YieldFrom))]
+        if set(chain) & _rebound_attrs():
+            if any(n.lineno <= getattr(y, 'lineno', 0) <= last for y in ys):
+                continue
+            if any(isinstance(lp, (ast.For, ast.While)) and any(x is y for y in ys for x in ast.walk(lp))
+                   and any(x in loads for x in ast.walk(lp)) for lp in ast.walk(func)):
+                continue
         value = n.value
 
         class Sub(ast.NodeTransformer):
